@@ -308,6 +308,11 @@ def _rebuild_atom(a, f, memo):
         return atom(mk("load8", rb(a.a[0])))
     if tag == "shr":
         return shr(rb(a.a[0]), const(a.a[1]))
+    if tag in ("udiv", "umod"):
+        x = rb(a.a[0])
+        if is_const(x):
+            return const(x.a[0] // a.a[1] if tag == "udiv" else x.a[0] % a.a[1])
+        return atom(mk(tag, x, a.a[1]))
     if tag in ("shl", "shrv"):
         x, y = rb(a.a[0]), rb(a.a[1])
         return shl(x, y) if tag == "shl" else shr(x, y)
@@ -532,6 +537,10 @@ class Evaluator:
             return bor(a, b)
         if op in ("==", "!=", "<", "<=", ">", ">="):
             return cmp(op, a, b)
+        if op in ("/", "%") and is_const(b) and b.a[0] > 0 and not X.strip(na).get("ts") and not n.get("ts"):
+            if is_const(a):
+                return const(a.a[0] // b.a[0] if op == "/" else a.a[0] % b.a[0])
+            return atom(mk("udiv" if op == "/" else "umod", a, b.a[0]))
         raise Unsupported("binary %s" % op)
 
     # ---- statements
@@ -587,6 +596,9 @@ class Evaluator:
                 if a is None or b is None:
                     continue
                 env[d] = ite(c, a, b)
+            return None
+        if k == "do" and stmt.get("cond") is not None and X.const_val(stmt["cond"]) == 0:
+            self.run_any(stmt["body"], env)          # do { ... } while (0): a statement wrapper, not a loop
             return None
         if k in ("while", "for", "do"):
             if k == "for" and stmt.get("init") is not None:
@@ -657,14 +669,23 @@ class Evaluator:
             steps = [rebuild(steps[i], subst, memo) for i in range(n)]
             # the continuation test of a counter that starts at 0 and steps by 1:  N - t != 0,  t != N  and  t < N  are one test
             ca = single_atom(cond, "cmp")
-            if ca is not None and ca.a[0] == "<":
-                # p + t < p + N (a walking pointer against an end pointer): the common base cancels (addresses do not wrap)
-                da, db = dict(ca.a[1].a[1]), dict(ca.a[2].a[1])
-                common = [x for x in da if x in db and da[x] == db[x] and not (x.k == "lv" and x.a[0] == depth)]
-                if common:
-                    la_ = lin(ca.a[1].a[0], tuple((x, c_) for x, c_ in da.items() if x not in common))
-                    lb_ = lin(ca.a[2].a[0], tuple((x, c_) for x, c_ in db.items() if x not in common))
-                    cond = cmp("<", la_, lb_)
+            if ca is not None and ca.a[0] in ("<", "<="):
+                # the continuation test of a counter that starts at 0 and steps by 1, in whichever spelling: with D = rhs - lhs,
+                #   D = N - t > 0   (i < n; p + t < p + n; 0 < blocks - t)      ->  t < N
+                #   D = N - t >= 0                                                ->  t < N + 1
+                #   D = N - C*t - C >= 0  (C <= len - C*t: a block of C is left) ->  t < N / C
+                # (the quantities compared are lengths and addresses: no wrap-around is assumed)
+                D = add(ca.a[2], ca.a[1], -1)
+                tl = lvatom(T)
+                coef = dict((a_.id, c_) for a_, c_ in D.a[1]).get(tl.id)
+                if coef is not None:
+                    Cn = (M - coef) % M
+                    rest = add(D, scale(atom(tl), coef), -1)            # D without its t term
+                    clean = not any(a_.k == "lv" and a_.a[0] == depth for a_, _ in rest.a[1])
+                    if clean and Cn == 1:
+                        cond = cmp("<", atom(tl), rest if ca.a[0] == "<" else add(rest, const(1)))
+                    elif clean and ca.a[0] == "<=" and 1 < Cn <= 65536:
+                        cond = cmp("<", atom(tl), atom(mk("udiv", add(rest, const(Cn)), Cn)))
                     ca = single_atom(cond, "cmp")
             if ca is not None and ca.a[0] == "!=":
                 diff = add(ca.a[1], ca.a[2], -1)
@@ -915,6 +936,8 @@ def show(t, depth=0):
         return "byte[%s]" % show(t.a[0], depth + 1)
     if t.k == "shr":
         return "(%s>>%d)" % (show(t.a[0], depth + 1), t.a[1])
+    if t.k in ("udiv", "umod"):
+        return "(%s%s%d)" % (show(t.a[0], depth + 1), "/" if t.k == "udiv" else "%", t.a[1])
     if t.k == "loopout":
         return "loop-result#%d" % t.a[1]
     if t.k == "switchout":
